@@ -187,7 +187,7 @@ TRANSPARENT = re.compile(
     r"branch|as_str|as_bytes|as_slice|to_owned|to_string|to_vec|as_path|as_deref|as_deref_mut|into_inner|"
     r"get_mut|lock|read|write|try_into|unwrap_unchecked|into_iter|iter|iter_mut|by_ref|as_ptr|as_mut_ptr|cast|"
     r"to_path_buf|into_boxed_slice|new_unchecked|get_unchecked|from_mut|from_ref|index|index_mut|"
-    r"copied|cloned|unwrap_or|map_err|join|next|next_back|peek|enumerate|rev|map|filter|ok_or|ok_or_else|as_mut_slice|into_string|to_le_bytes|to_be_bytes)$")
+    r"copied|cloned|unwrap_or|map_err|join|is_some|is_none|is_ok|is_err|next|next_back|peek|enumerate|rev|map|filter|ok_or|ok_or_else|as_mut_slice|into_string|to_le_bytes|to_be_bytes)$")
 
 
 MUTATORS = re.compile(r"(Vec|VecDeque|HashSet|BTreeSet|HashMap|BTreeMap|BinaryHeap)::(push|push_back|push_front|insert|extend|append|extend_from_slice)$")
@@ -237,6 +237,10 @@ def defs(fn):
     if getattr(fn, "_defs", None) is None:
         fn._defs = Defs(fn)
     return fn._defs
+
+
+WRAPPERS = re.compile(r"^alloc::(boxed::Box|sync::Arc|rc::Rc)::new$|^core::(cell::RefCell|cell::Cell)::new$")
+VALUE_CALLS = re.compile(r"core::cmp::(max|min)$|core::cmp::Ord::(max|min)$|::(saturating|wrapping|checked)_(add|sub|mul)$")
 
 
 class _Opt:
@@ -373,8 +377,11 @@ def _origins_place(fn, l, fes, depth, seen, tc):
                 continue
             ck = callee_skey(t) or "indirect"
             out.append({"k": "call", "callee": ck, "pt": pt, "t": t})
-            if tc and TRANSPARENT.search(ck) and t["args"]:
+            if tc and (TRANSPARENT.search(ck) or WRAPPERS.search(ck)) and t["args"]:
                 out += _origins_op(fn, t["args"][0], [], depth, seen, tc)
+            elif getattr(tc, "bin", False) and VALUE_CALLS.search(ck):
+                for a in t["args"]:
+                    out += _origins_op(fn, a, [], depth, seen, tc)
     return out
 
 
